@@ -105,10 +105,13 @@ def main(argv=None):
     ap.add_argument('--case', default=None, help='only run cases whose name contains this')
     ap.add_argument('-j', type=int, default=int(os.environ.get('VERIF_JOBS', '16')))
     ap.add_argument('--no-evidence', action='store_true')
+    ap.add_argument('--cross', type=int, default=None, help='z3 unsat verdicts per case re-decided by cvc5 (default 0 quick, 2 thorough)')
     ap.add_argument('-v', action='store_true')
     args = ap.parse_args(argv)
     prop = args.prop
     _PROP = prop
+    if 'VERIF_CROSS' not in os.environ or args.cross is not None:
+        os.environ['VERIF_CROSS'] = str(args.cross if args.cross is not None else (2 if args.tier == 'thorough' else 0))
     seed = int(os.environ.get('VERIF_SEED', '0') or 0)
     t0 = time.time()
     mod = importlib.import_module(f'checks.{prop}')
